@@ -66,7 +66,7 @@ Is(e) == l <= Len(Trace) /\ E.ev = e /\ l' = l + 1
 TrSched == Is("Sched") /\ Fresh /\ nsched' = nsched + 1 /\ UNCHANGED <<vio, ndrift>>
 
 TrListenEnd == /\ Is("ListenEnd")
-               /\ Flag(IF E.ok THEN {} ELSE {"listen-failed"})
+               /\ Flag(IF E.ok \/ E.foreign THEN {} ELSE {"listen-failed"})   \* a foreign socket holds the address: must fail
                /\ keyOf' = IF E.ok THEN [keyOf EXCEPT ![E.h] = E.k] ELSE keyOf
                /\ UNCHANGED <<closeStarted, closeDone, acc, delivered, nsched, ndrift, itemKey, gap>>
 
